@@ -84,6 +84,9 @@ func (b *BTree) insertInternal(parent *btreeNode, curNode *btreeNode, key uint32
 	}
 
 	newPg := &btreeNode{}
+	// a new page has no image on disk: mark it dirty before it enters the
+	// cache, where clean pages may be evicted at any time
+	newPg.markDirty(nextLSN)
 	if err := b.store.append(newPg); err != nil {
 		return err
 	}
@@ -95,6 +98,7 @@ func (b *BTree) insertInternal(parent *btreeNode, curNode *btreeNode, key uint32
 
 	if parent == nil {
 		parent = &btreeNode{}
+		parent.markDirty(nextLSN)
 		if err := b.store.append(parent); err != nil {
 			return err
 		}
@@ -137,6 +141,9 @@ func (b *BTree) insertLeaf(parent *btreeNode, curNode *btreeNode, key uint32, ne
 	}
 
 	newPg := &btreeNode{isLeaf: true}
+	// a new page has no image on disk: mark it dirty before it enters the
+	// cache, where clean pages may be evicted at any time
+	newPg.markDirty(nextLSN)
 	if err := b.store.append(newPg); err != nil {
 		return err
 	}
@@ -154,6 +161,7 @@ func (b *BTree) insertLeaf(parent *btreeNode, curNode *btreeNode, key uint32, ne
 
 	if parent == nil {
 		parent = &btreeNode{}
+		parent.markDirty(nextLSN)
 		if err := b.store.append(parent); err != nil {
 			return err
 		}
